@@ -76,9 +76,13 @@ var runtimes = map[string][]byte{
 	// "fund, then deploy": CALL(to = CALLDATALOAD(0), value = CALLVALUE), then CREATE2(init = STOP, salt 0); called with
 	// its own child address it pays the address first and deploys a contract there afterwards, in one transaction
 	"factory": hist.RtFactory,
+	// calls itself once; the inner frame (CALLER == ADDRESS) sends 1 wei to a fresh address (calldata word 2: account
+	// creation), reads the balances of the accounts in words 0 and 1 (first touch) and reverts; the outer frame then pays
+	// the call value to the account in word 0
+	"nest": hist.RtNest,
 }
 
-var runtimeNames = []string{"store", "revert", "loop", "kill", "log", "factory"}
+var runtimeNames = []string{"store", "revert", "loop", "kill", "log", "factory", "nest"}
 
 func initCode(rt []byte) []byte {
 	n := byte(len(rt))
@@ -671,6 +675,20 @@ func (g *gen) olvm(e *sim.EthUser) (txgen.Tx, string) {
 		if g.ctrType[c] == "factory" {
 			a.Data = ethcmn.LeftPadBytes(hist.FactoryChild(c).Bytes(), 32)
 			a.Fee.Gas = []int64{300000, 300000, 100000, 60000}[g.u.N(4, "fgas")]
+		}
+		if g.ctrType[c] == "nest" {
+			pickAcc := func(label string) []byte {
+				if g.u.N(2, label) == 0 {
+					return w.G.U.Eth[g.u.N(len(w.G.U.Eth), label+"e")].OLAddr()
+				}
+				return w.G.U.Users[g.u.N(len(w.G.U.Users), label+"u")].Addr
+			}
+			a.Data = append(append(ethcmn.LeftPadBytes(pickAcc("nest-a"), 32), ethcmn.LeftPadBytes(pickAcc("nest-b"), 32)...),
+				ethcmn.LeftPadBytes(hist.NestFresh(fmt.Sprintf("%s-%d", e.Name, a.Nonce)), 32)...)
+			if a.Value.Sign() == 0 && g.u.N(4, "nest-zero") != 0 {
+				a.Value = big.NewInt(int64(g.u.Range(1, 1000000, "nest-v")))
+			}
+			a.Fee.Gas = []int64{300000, 300000, 100000, 60000}[g.u.N(4, "ngas")]
 		}
 	}
 	// failure classes of the consensus pre-checks, and nonce shapes
